@@ -174,6 +174,19 @@ add(
     "DESIGN.md 6/C20",
 )
 
+add(
+    "C15",
+    "exploration",
+    "Twin executions in lockstep (mode=min on f vs mode=max on -f, same arguments, seeds and tape-chosen events) for FIFO random/grid, all "
+    "Hyperband variants, synchronous Hyperband, DEHB, PBT, regularised evolution, median rule and MOASHA with mode lists, plus whole "
+    "simulated Tuner runs on f / -f tables; suggestions, decisions, delivery histories and Tuner.best_config must be identical. Pairs in "
+    "which a rung cut-off lies within round-off of a metric value are dropped and counted (the property's caveat). 1.9e4 pairs quick, 3.6e5 thorough.",
+    "Metric values are distinct by construction. GP-based searchers are outside the property's quantifier. The cut-off-coincidence filter "
+    "uses the C03/C04 reference models.",
+    "property-based testing (Hypothesis choice tape): metamorphic relation min(f) == max(-f) on lockstep twins",
+    "DESIGN.md 6/C15",
+)
+
 NOT_YET = {}
 
 ALL = [f"C{i:02d}" for i in range(1, 21)]
